@@ -276,8 +276,8 @@ fn lower_v(e: &Expr) -> String {
             for arm in &m.arms {
                 match &arm.pat {
                     Pat::Lit(l) => {
-                        if let Some(k) = int_lit(&Expr::Lit(syn::ExprLit { attrs: vec![], lit: l.lit.clone() })) {
-                            arms.push(format!("({}, {})", lean_int(k), lower_v(&arm.body)));
+                        if let (Some(k), Some(r)) = (int_lit(&Expr::Lit(syn::ExprLit { attrs: vec![], lit: l.lit.clone() })), int_lit(&arm.body)) {
+                            arms.push(format!("({}, {})", lean_int(k), lean_int(r)));
                         } else {
                             return unknown("match-int pattern", norm(&arm.pat));
                         }
@@ -286,8 +286,10 @@ fn lower_v(e: &Expr) -> String {
                         let b = norm(&arm.body);
                         if b.starts_with("unreachable !") {
                             dflt = "none".into();
+                        } else if let Some(r) = int_lit(&arm.body) {
+                            dflt = format!("(some {})", lean_int(r));
                         } else {
-                            dflt = format!("(some {})", lower_v(&arm.body));
+                            return unknown("match-int default", b);
                         }
                     }
                     _ => return unknown("match-int pattern", norm(&arm.pat)),
@@ -555,9 +557,9 @@ fn lower_let(l: &syn::Local) -> String {
                 match &arm.pat {
                     Pat::Lit(pl) => {
                         let k = int_lit(&Expr::Lit(syn::ExprLit { attrs: vec![], lit: pl.lit.clone() }));
-                        match k {
-                            Some(k) => arms.push(format!("({}, {})", lean_int(k), lower_v(&arm.body))),
-                            None => return unknown("let-match pattern", norm(l)),
+                        match (k, int_lit(&arm.body)) {
+                            (Some(k), Some(r)) => arms.push(format!("({}, {})", lean_int(k), lean_int(r))),
+                            _ => return unknown("let-match pattern", norm(l)),
                         }
                     }
                     Pat::Wild(_) => dflt = block_of(&arm.body),
@@ -567,6 +569,16 @@ fn lower_let(l: &syn::Local) -> String {
             format!("(.letMatch {} {scrut} [{}] {dflt})", lean_str(&x), arms.join(", "))
         }
         _ => format!("(.letV {} {})", lean_str(&x), lower_v(init)),
+    }
+}
+
+fn err_class(text: &str) -> &'static str {
+    if text.contains("will not fit") || text.contains("must be between") || text.contains("is not valid") {
+        "range"
+    } else if text.contains("immediately solvable") {
+        "needsNow"
+    } else {
+        "unexpected"
     }
 }
 
@@ -591,13 +603,15 @@ fn lower_expr_stmt(e: &Expr) -> Vec<String> {
             if let Some(inner) = &r.expr {
                 if let Expr::Macro(m) = &**inner {
                     if norm(&m.mac.path) == "asm_err" {
-                        return vec!["(.err)".into()];
+                        return vec![format!("(.err {})", lean_str(err_class(&norm(&m.mac.tokens))))];
                     }
                 }
             }
             vec![unknown("return", t)]
         }
-        Expr::Macro(m) if norm(&m.mac.path) == "asm_err" => vec!["(.err)".into()],
+        Expr::Macro(m) if norm(&m.mac.path) == "asm_err" => {
+            vec![format!("(.err {})", lean_str(err_class(&norm(&m.mac.tokens))))]
+        }
         Expr::Try(tr) => {
             if let Expr::MethodCall(m) = &*tr.expr {
                 if norm(&m.receiver) == "asm" {
